@@ -83,6 +83,16 @@ Theorem C13_old_contraction_ignored_the_population :
   contract (EFrac (EProb (Some (V 17)) [V 0; V 1] []) (EProb None [V 1] [])) = EFrac (EProb (Some (V 17)) [V 0; V 1] []) (EProb None [V 1] []).
 Proof. vm_compute. auto. Qed.
 
+(* the marginalisation law needs distinct names and a summed name that is not an intervention value; the code before the
+   repairs simplified regardless (Y=22, X=21, Z=23):  Sum[Y](P(Y@+X, Y@-X)) -> One,  Sum[Y](P(Y@-X, Z@-Y)) -> P[Y](Z) *)
+Theorem C13_old_sum_simplification_ignored_the_side_conditions :
+  let yx (s : bool) := mkVar KCf 22 None [(21%nat, s)] in let zy := mkVar KCf 23 None [(22%nat, false)] in
+  sum_simplify_gen true (EProb None [yx true; yx false] []) [V 22] = EOne /\
+  sum_simplify_gen false (EProb None [yx true; yx false] []) [V 22] = ESum (EProb None [yx true; yx false] []) [V 22] /\
+  sum_simplify_gen true (EProb None [yx false; zy] []) [V 22] = EProb None [zy] [] /\
+  sum_simplify_gen false (EProb None [yx false; zy] []) [V 22] = ESum (EProb None [yx false; zy] []) [V 22].
+Proof. vm_compute. auto. Qed.
+
 Theorem C13_chain_expansion_yields_single_child_factors pop ch pa reorder ordering :
   ch <> [] ->
   match chain_expand (EProb pop ch pa) reorder ordering with
@@ -106,4 +116,5 @@ Print Assumptions C13_fraction_expansion.
 Print Assumptions C13_bayes_expansion.
 Print Assumptions C13_contraction.
 Print Assumptions C13_old_contraction_ignored_the_population.
+Print Assumptions C13_old_sum_simplification_ignored_the_side_conditions.
 Print Assumptions C13_chain_expansion_yields_single_child_factors.
